@@ -217,6 +217,16 @@ def subchecks(tier, seed):
                     if t not in seen:
                         seen.add(t)
                         yield t
+        # long runs on overlapping clusters (EM converges within the run): a stopping rule or a convergence shortcut
+        # must not depend on the class order either
+        for model, nsets in (('vmfmm', 100), ('gmm', 12), ('cwmm', 12), ('cacgmm', 12)):
+            for v in range(nsets if not thorough else 2 * nsets):
+                for p in SP.deviations(0, fixed=dict(iterations=120, K=3, start='soft', N='big', model=model,
+                                                     data='overlap', lead=()), core=()):
+                    t = SP.tup(p) + (seed * 1000 + 7 + v, thorough)
+                    if t not in seen:
+                        seen.add(t)
+                        yield t
         # a class that holds a share of about 1e-4: whatever is done to a nearly empty class must not depend on
         # where it (or any other class) sits in the class order
         for its in (1, 2, 5):
